@@ -245,4 +245,9 @@ pub assume_specification<Idx: PartialOrd + PartialOrd> [Range::<Idx>::is_empty] 
 pub broadcast proof fn axiom_range_is_empty_usize(r: &Range<usize>)
     ensures #[trigger] range_is_empty(r) == !(r.start < r.end),
 {}
+
+/// std: Option::filter. The result is the outcome of one call of the predicate. TRUSTED.
+pub assume_specification<T, P: FnOnce(&T) -> bool> [std::option::Option::<T>::filter] (o: Option<T>, p: P) -> (r: Option<T>)
+    requires o is Some ==> p.requires((&o->Some_0,)),
+    ensures match o { None => r is None, Some(x) => (r == Some(x) && p.ensures((&x,), true)) || (r is None && p.ensures((&x,), false)) };
 } // verus!
